@@ -130,3 +130,15 @@ impl Args {
             .unwrap_or(d)
     }
 }
+
+pub static LAST_PANIC: std::sync::Mutex<String> = std::sync::Mutex::new(String::new());
+pub static CATCHING: std::sync::atomic::AtomicBool = std::sync::atomic::AtomicBool::new(false);
+
+/// Runs `f`, turning a panic of the code under test into data: Err(location and message)
+pub fn guarded<T>(f: impl FnOnce() -> T) -> Result<T, String> {
+    use std::sync::atomic::Ordering;
+    CATCHING.store(true, Ordering::SeqCst);
+    let r = std::panic::catch_unwind(std::panic::AssertUnwindSafe(f));
+    CATCHING.store(false, Ordering::SeqCst);
+    r.map_err(|_| LAST_PANIC.lock().unwrap().clone())
+}
